@@ -110,6 +110,8 @@ def type_table(d):
         if p["kind"] == "struct":
             for f in p["fields"]:
                 tid(f[1])
+            for iface in p.get("bind", []):
+                tid(iface)
     tid(d["ret"])
     return tt
 
@@ -328,7 +330,13 @@ def coq_tree(d, tt):
     def pe(p):
         if p["kind"] == "struct":
             e = "XStruct %d%%N" % tt[p["type"]]
-            return "XAsync (%s)" % e if p.get("wrap") == "async" else e
+            if p.get("wrap") == "async" and p.get("nest") == "bind_outer":
+                e = "XAsync (%s)" % e
+            for iface in p.get("bind", []):
+                e = "XBind %d%%N (%s)" % (tt[iface], e)
+            if p.get("wrap") == "async" and p.get("nest") != "bind_outer":
+                e = "XAsync (%s)" % e
+            return e
         if p["kind"] == "value":
             e = "XValue %d%%N" % tt[p["provides"][0][0]]
             for iface in p.get("bind", []):
@@ -358,9 +366,8 @@ def coq_tree(d, tt):
         return "[" + "; ".join(pe(d["provs"][it]) if isinstance(it, int) else "XSet %s" % lay(it[1]) for it in layout) + "]"
     impl = []
     for p in d["provs"]:
-        if p["kind"] != "struct":
-            for iface in p.get("bind", []):
-                impl.append("(%d%%N, %d%%N)" % (tt[p["provides"][0][0]], tt[iface]))
+        for iface in p.get("bind", []):
+            impl.append("(%d%%N, %d%%N)" % (tt[p["type"] if p["kind"] == "struct" else p["provides"][0][0]], tt[iface]))
     ftbl = []
     for p in d["provs"]:
         if p["kind"] == "struct":
@@ -375,7 +382,18 @@ def coq_decl(d, tt):
 
 
 def coq_decl_flat(d, tt):
-    """the harness's own flat provider list (reference for ParseDecl.tree_code)"""
+    """the harness's own flat provider list (reference for ParseDecl.tree_code); an interface bound to a Struct expansion sits
+    in the result group of the struct's source (the first provider function that provides the struct type)"""
+    extra = {}
+    for sp in d["provs"]:
+        if sp["kind"] == "struct" and sp.get("bind"):
+            for i, q in enumerate(d["provs"]):
+                hit = [gi for gi, g in enumerate(q["provides"]) if sp["type"] in g] if q["kind"] != "struct" else []
+                if hit:
+                    for gi in hit:
+                        extra.setdefault((i, gi), []).extend(sp["bind"])
+                    break
+    d = dict(d, provs=[dict(q, provides=[g + extra.get((i, gi), []) for gi, g in enumerate(q["provides"])]) for i, q in enumerate(d["provs"])])
     ps = []
     for p in d["provs"]:
         if p["kind"] == "struct":
